@@ -400,6 +400,9 @@ func execWriterCase(c *WCase, arch int, emit func(interface{})) {
 	if c.Data.Class == "period" {
 		period = c.Data.Period
 	}
+	if c.Data.Class == "lowperiod" {
+		period = 1000 + c.Data.Period // (WriterContract: a period over two or three byte values)
+	}
 	kind := c.Set.Kind
 	if kind == "gzip" && !hdrEncodable(c.Set.Hdr) {
 		kind = "gzip-unencodable-header" // (WriterContract.BadHdr)
